@@ -51,6 +51,8 @@ pub struct GenOpts {
     pub io_mode: u32,
     /// never draw a small capacity (C20: the pointer backend has no capacity)
     pub ample_only: bool,
+    /// C12: mix in differential runs of the natural-number type
+    pub nat_ops: bool,
 }
 
 impl GenOpts {
@@ -69,6 +71,7 @@ impl GenOpts {
             zbdd_order: false,
             io_mode: 0,
             ample_only: false,
+            nat_ops: false,
         }
     }
     pub fn emph(mut self, c: Class, w: u32) -> Self {
@@ -220,7 +223,13 @@ impl<'a> Gen<'a> {
         let Some(a) = self.pick_live() else { return self.leaf() };
         let d = self.dest();
         let i = match self.model.kind {
-            Kind::Tdd => Instr::TNot { d, a },
+            Kind::Tdd => {
+                if self.rng.chance(1, 4) {
+                    Instr::TNotEdgeOwned { d, a }
+                } else {
+                    Instr::TNot { d, a }
+                }
+            }
             Kind::MtbddI | Kind::MtbddF => {
                 let n = self.model.n;
                 let m = (1u32 << n) - 1;
@@ -376,6 +385,10 @@ impl<'a> Gen<'a> {
     fn satcount(&mut self) {
         if !self.model.kind.is_boolean() {
             return self.observe();
+        }
+        if self.opts.nat_ops && self.rng.chance(1, 4) {
+            let i = Instr::NatOps { seed: self.rng.next(), count: self.rng.range(4, 24) as u8 };
+            return self.push(i);
         }
         let Some(a) = self.pick_live() else { return self.leaf() };
         let extra = *self.rng.pick(&[0u16, 0, 0, 1, 70, 1090]);
@@ -630,7 +643,7 @@ fn is_target(i: &Instr) -> bool {
         Var { .. } | NotVar { .. } | Table { .. } | Not { .. } | Bin { .. } | Ite { .. } | Restrict { .. } | Quantify { .. }
             | ApplyQuant { .. } | Subst { .. } | PickCubeDd { .. } | PickCubeDdSet { .. } | ZSingleton { .. } | ZBin { .. }
             | ZUn { .. } | ZMakeNode { .. } | NConst { .. } | NVar { .. } | NBin { .. } | NIte { .. } | NRestrict { .. }
-            | TVar { .. } | TNot { .. } | TBin { .. } | TIte { .. } | Dddmp { .. }
+            | TVar { .. } | TNot { .. } | TNotEdgeOwned { .. } | TBin { .. } | TIte { .. } | Dddmp { .. }
     )
 }
 
@@ -663,6 +676,15 @@ fn gen_program_tail(seed: u64, run: u64, opts: &GenOpts, target: bool) -> Progra
         weights,
         out: vec![],
     };
+    // ZBDD reordering with live functions is a known finding (C08); an order installed while
+    // the manager holds no function is not affected, so every ZBDD workload still sees
+    // variable orders where variable number and level differ
+    if config.kind == Kind::Zbdd && opts.allow_order && !opts.zbdd_order && config.vars >= 2 && g.rng.chance(1, 2) {
+        let mut vars: Vec<u32> = (0..config.vars).collect();
+        g.rng.shuffle(&mut vars);
+        let seq = g.rng.bool();
+        g.push(Instr::Order { order: vars, seq });
+    }
     while g.out.len() < len {
         g.step();
     }
@@ -677,8 +699,10 @@ fn gen_program_tail(seed: u64, run: u64, opts: &GenOpts, target: bool) -> Progra
                 7 => g.subst(),
                 8 => g.pick(),
                 _ => {
-                    if g.model.kind == Kind::Zbdd {
+                    if g.model.kind == Kind::Zbdd && g.rng.bool() {
                         g.zops()
+                    } else if g.opts.allow_dddmp && g.model.kind != Kind::Tdd {
+                        g.dddmp()
                     } else {
                         g.binary()
                     }
